@@ -9,6 +9,7 @@ import Cmr.Complement
 import Cmr.Pivot
 import Cmr.Regular
 import Cmr.Stack
+import Cmr.Graph
 namespace Cmr
 
 inductive Verdict where
@@ -299,6 +300,169 @@ def judgeStack (op : List String) (status : String) (payload : List String) : Ve
     | _, _ => return .badOp s!"stack op '{t}'"
   return .ok s!"stack:{nAlloc}"
 
+
+/-! ### graphs -/
+
+open P in
+/-- `G numNodes numEdges nodeIds… (edgeId u v)*` optionally followed by `F k ids…  K k ids…  [A bits… | a]` -/
+def parseGraphCert (withRev : Bool) : P (Option (Graph × List Nat × List Nat)) := do
+  let t ← tok
+  if t == "-" then return none
+  if t != "G" then throw s!"expected graph, got '{t}'"
+  let nn ← nat; let ne ← nat
+  let nodes ← many nat nn
+  let es ← many (do let e ← nat; let u ← nat; let v ← nat; pure (e, u, v)) ne
+  expect "F"
+  let nf ← nat
+  let forest ← many nat nf
+  expect "K"
+  let nk ← nat
+  let coforest ← many nat nk
+  let mut revs : List Bool := es.map (fun _ => false)
+  if withRev then
+    let a ← tok
+    if a == "A" then
+      let bits ← many nat ne
+      revs := bits.map (· != 0)
+    else if a != "a" then throw s!"expected arc reversal flags, got '{a}'"
+  let edges := (es.zip revs).map (fun ((e, u, v), r) => ({ id := e, u := u, v := v, rev := r } : Edge))
+  return some ({ nodes := nodes, edges := edges }, forest, coforest)
+
+/-- rows small enough for the brute-force graphicness/network search -/
+def graphOracleRows : Nat := 5
+
+open P in
+def judgeGraphic : P Verdict := do
+  let tr ← nat; let wantgraph ← nat; let _wantsub ← nat
+  let (m0, n0, M0) ← denseMat
+  expect "=>"
+  let status ← tok
+  let name := if tr == 1 then "cographic" else "graphic"
+  if status != "ok" then return .fail name s!"status {status}"
+  let v ← tok
+  -- the matrix the graph must realise: M itself, or its transpose for the transposed entry point
+  let (m, n, M) := if tr == 1 then (n0, m0, transpose m0 n0 M0) else (m0, n0, M0)
+  let cert ← parseGraphCert false
+  let sub? ← submat
+  if !isBinary M then
+    if v == "no" then return .ok s!"{name}:nonbinary" else return .fail name "non-binary matrix reported (co)graphic"
+  if v == "yes" then
+    match cert with
+    | none =>
+      if wantgraph == 1 then return .fail s!"{name}:cert" "answer yes but no graph returned although requested"
+      else if m ≤ graphOracleRows then
+        if isGraphic m n M then return .ok s!"{name}:yes" else return .fail s!"{name}:verdict" "impl=yes model=no"
+      else return .skip s!"{name}:yes-large"
+    | some (g, forest, coforest) =>
+      match checkGraphCert m n M g forest coforest false with
+      | .ok _ => return .ok s!"{name}:yes:cert"
+      | .error e => return .fail s!"{name}:cert" e
+  else
+    match sub? with
+    | some (rs, cs) =>
+      if (idxList rs m0).isNone || (idxList cs n0).isNone then return .fail s!"{name}:violator" "violator indices out of range"
+    | none => pure ()
+    if m ≤ graphOracleRows then
+      if isGraphic m n M then return .fail s!"{name}:verdict" s!"impl=no model=yes tree={repr (graphicSearch m n M)}"
+      else return .ok s!"{name}:no"
+    else return .skip s!"{name}:no-large"
+
+open P in
+def judgeNetwork : P Verdict := do
+  let tr ← nat; let wantgraph ← nat; let _wantsub ← nat
+  let (m0, n0, M0) ← denseMat
+  expect "=>"
+  let status ← tok
+  let name := if tr == 1 then "conetwork" else "network"
+  if status != "ok" then return .fail name s!"status {status}"
+  let v ← tok
+  let supp ← tok
+  let (m, n, M) := if tr == 1 then (n0, m0, transpose m0 n0 M0) else (m0, n0, M0)
+  let cert ← parseGraphCert true
+  let sub? ← submat
+  if !isTernary M then
+    if v == "no" then return .ok s!"{name}:nonternary" else return .fail name "non-ternary matrix reported (co)network"
+  -- support graphicness flag
+  if m ≤ graphOracleRows then
+    let sg := isGraphic m n (support M)
+    if (supp == "supp=yes") != sg then
+      return .fail s!"{name}:support" s!"support graphicness reported {supp}, model says {sg}"
+  if v == "yes" then
+    match cert with
+    | none =>
+      if wantgraph == 1 then return .fail s!"{name}:cert" "answer yes but no digraph returned although requested"
+      else if m ≤ graphOracleRows then
+        if isNetwork m n M then return .ok s!"{name}:yes" else return .fail s!"{name}:verdict" "impl=yes model=no"
+      else return .skip s!"{name}:yes-large"
+    | some (g, forest, coforest) =>
+      match checkGraphCert m n M g forest coforest true with
+      | .ok _ => return .ok s!"{name}:yes:cert"
+      | .error e => return .fail s!"{name}:cert" e
+  else
+    if m ≤ graphOracleRows then
+      if isNetwork m n M then return .fail s!"{name}:verdict" s!"impl=no model=yes"
+      match sub? with
+      | some (rsI, csI) =>
+        match idxList rsI m0, idxList csI n0 with
+        | some rs, some cs =>
+          -- the violating submatrix lies within M and is itself not a (co)network matrix
+          let S0 := sub M0 rs cs
+          let (sm, sn, S) := if tr == 1 then (cs.length, rs.length, transpose rs.length cs.length S0) else (rs.length, cs.length, S0)
+          if !(noDup rs && noDup cs) then return .fail s!"{name}:violator" "violator repeats a line"
+          if isNetwork sm sn S then return .fail s!"{name}:violator" s!"returned submatrix rows {rs} cols {cs} is a (co)network matrix"
+          return .ok s!"{name}:no:violator"
+        | _, _ => return .fail s!"{name}:violator" "violator indices out of range"
+      | none => return .ok s!"{name}:no"
+    else return .skip s!"{name}:no-large"
+
+open P in
+def judgeRepmat : P Verdict := do
+  let directed ← nat; let outs ← nat
+  let nn ← nat; let ne ← nat
+  let es ← many (do let u ← nat; let v ← nat; let r ← nat; pure (u, v, r)) ne
+  let nF ← int
+  let F ← many nat nF.toNat
+  let nK ← int
+  let K ← many nat nK.toNat
+  expect "=>"
+  let status ← tok
+  let name := if directed == 1 then "repmat:network" else "repmat:graphic"
+  if status != "ok" then return .fail name s!"status {status}"
+  let corr ← tok
+  let A ← csr
+  let At ← csr
+  let edges : List Edge := es.zipIdx.map (fun ((u, v, r), i) => { id := i, u := u, v := v, rev := directed == 1 && r != 0 })
+  let g : Graph := { nodes := List.range nn, edges := edges }
+  -- outputs must be consistent matrices and transposes of each other
+  let dm ← match A with
+    | some a => if a.consistent then pure (some (a.numRows, a.numCols, a.toDense)) else return .fail s!"{name}:csr" s!"{repr a}"
+    | none => pure none
+  let dt ← match At with
+    | some a => if a.consistent then pure (some (a.numRows, a.numCols, a.toDense)) else return .fail s!"{name}:csr" s!"{repr a}"
+    | none => pure none
+  if (outs % 2 == 1) != dm.isSome || (outs / 2 % 2 == 1) != dt.isSome then return .fail name "requested outputs missing"
+  match dm, dt with
+  | some (r, c, M), some (r', c', Mt) =>
+    if !(r == c' && c == r' && transpose r c M == Mt) then return .fail s!"{name}:transpose" "matrix and transpose outputs differ"
+  | _, _ => pure ()
+  if nF < 0 then return .ok s!"{name}:noforest"
+  let T := F.filterMap g.edge?
+  let isSF := decide F.Nodup && isSpanningForest g T
+  if (corr == "correct=1") != isSF then
+    return .fail s!"{name}:flag" s!"forest correctness reported {corr}, model says {isSF}"
+  if !isSF then return .ok s!"{name}:incorrect-forest"
+  -- coforest: given order if complete, else the contract fixes only the set of columns
+  let compl := (List.range ne).filter (fun e => !F.contains e)
+  if nK < 0 || !(decide K.Nodup && K.length == compl.length && K.all compl.contains) then return .ok s!"{name}:nocoforest"
+  let coT := K.filterMap g.edge?
+  match cycleMatrix T coT (directed == 1) with
+  | none => return .fail name "model: no tree path (internal)"
+  | some C =>
+    let ok1 := match dm with | some (_, _, M) => M == C | none => true
+    let ok2 := match dt with | some (_, _, Mt) => Mt == transpose T.length coT.length C | none => true
+    if ok1 && ok2 then return .ok name
+    else return .fail name s!"impl={(dm.map (fun x => matToString x.2.2)).getD "-"} model={matToString C}"
+
 /-! ### dispatcher -/
 
 def runP (p : P Verdict) (toks : List String) : Verdict :=
@@ -329,6 +493,9 @@ def judgeLine (line : String) : Verdict :=
       | "pivot" => runP judgePivot toks
       | "mat" => runP judgeMat toks
       | "stack" => judgeStack (op.drop 1) L.status L.payload
+      | "graphic" => runP judgeGraphic toks
+      | "network" => runP judgeNetwork toks
+      | "repmat" => runP judgeRepmat toks
       | o => .badOp s!"unknown op '{o}'"
     match v, generic with
     | .fail t m, _ => .fail t m
